@@ -150,6 +150,11 @@ impl Ctx {
         if let Some(s) = &s {
             facts.push(("primary signature verifies", guarded(|| s.verify(&pubk, data.as_bytes()).is_ok()).unwrap_or(false)));
             facts.push(("other data rejected", guarded(|| s.verify(&pubk, b"other").is_err()).unwrap_or(false)));
+            // RSA: several more signatures, so that values with leading zero octets are among them
+            if matches!(sh.primary, KeyType::Rsa(_)) {
+                let all = (0..8u64).all(|j| { let d = format!("data {seed} {j}"); guarded(|| DetachedSignature::sign_binary_data(Rng::new(seed ^ (100 + j)), &key.primary_key, &pw, key.primary_key.hash_alg(), d.as_bytes()).ok().map(|s| s.verify(&pubk, d.as_bytes()).is_ok())).ok().flatten().unwrap_or(false) });
+                facts.push(("eight more primary signatures verify", all));
+            }
             self.sig_mpis(&s.signature, scalar_len(key.primary_key.algorithm(), &sh.primary), seed, &name);
         }
         for (si, (sub, spec)) in key.secret_subkeys.iter().zip(sh.subs.iter()).enumerate() {
@@ -238,6 +243,10 @@ fn main() {
         // subkeys locked with a passphrase of their own (the primary unlocked, or locked with another one)
         v.push(Shape { ver: KeyVersion::V4, primary: KeyType::Ed25519Legacy, pname: "eddsa-legacy", subs: vec![(KeyType::ECDH(ECCCurve::Curve25519Legacy), false, "cv25519"), (KeyType::Ed25519Legacy, true, "sign-eddsa-legacy-ownpw")], uids: 1, pass: None });
         v.push(Shape { ver: KeyVersion::V6, primary: KeyType::Ed25519, pname: "ed25519", subs: vec![(KeyType::X25519, false, "x25519-ownpw"), (KeyType::Ed25519, true, "sign-ed25519-ownpw")], uids: 1, pass: Some("pass") });
+        // RSA moduli whose size is not a whole number of octets (any size from 2048 to 4096 is accepted): signature values and
+        // session keys are then often shorter than the modulus (appended last: LEADING_ZERO_SEEDS names shapes by index)
+        v.push(Shape { ver: KeyVersion::V4, primary: KeyType::Rsa(2049), pname: "rsa2049", subs: vec![(KeyType::Rsa(2052), false, "rsa2052")], uids: 2, pass: None });
+        v.push(Shape { ver: KeyVersion::V6, primary: KeyType::Rsa(2055), pname: "rsa2055", subs: vec![(KeyType::Rsa(2049), true, "sign-rsa2049"), (KeyType::X25519, false, "x25519")], uids: 1, pass: None });
         v
     };
     if cli.mode == "replay" {
